@@ -58,6 +58,10 @@ def make_case(i, rng, tier):
             fc = (inp, f2[0], f2[1]) if f2 else None
         if fc:
             return common.mk_case(rng, fc[0], fc[1], fc[2])
+    if rng.random() < 0.04:
+        fc = common.uniform_assumption_fault(rng, inp, o)
+        if fc:
+            return common.mk_case(rng, fc[0], fc[1], fc[2])
     n = 2 if rng.random() < 0.1 else 1
     for _ in range(n):
         r = F.fault_size(data, o, rng)
